@@ -36,6 +36,15 @@ FAMILY = [
      "start: foo NEWLINE\nfoo: bar 'A' | 'B'\nbar: foo 'C' ';' | foo 'K' ';' | 'D'\n"),
     ("start: expr NEWLINE\nexpr: more expr '+' NUMBER | NUMBER\nquals: 'q' more | ['c'] ['v']\nmore: quals ['f']\n", None, None),
     ("quals: 'q' more | ['c'] ['v']\nmore: quals ['f']\nexpr: more expr '+' NUMBER | NUMBER\nstart: expr NEWLINE\n", r"1( \+ 1)*", None),
+    # the (memo) flag on a left-recursive rule, on both rules of a cycle, on a typed leader: it must not displace seed growing
+    ("start: a NEWLINE\na (memo): a 'x' | 'b'\n", r"b( x)*", "start: a NEWLINE\na: 'b' 'x'*\n"),
+    ("start: a NEWLINE\na (memo): c 'x' | 'b'\nc (memo): a\n", r"b( x)*", None),
+    ("start: c NEWLINE\na[int] (memo): c 'x' | 'b'\nc: a\n", r"b( x)*", None),
+    # a nullable first alternative (a pure predicate) in front of the alternative that hides the left recursion
+    ("start: a NEWLINE\na: &'q' 'q'* | ['y'] a 'x' | 'b'\n", None, None),
+    ("start: a NEWLINE\na: (&'q' 'q'* | ['y'] a 'x') | 'b'\n", None, None),
+    # a positive lookahead in front of the recursive reference, inside a group
+    ("start: a NEWLINE\na: (&'b' a) 'x' | 'b'\n", r"b( x)*", None),
 ]
 EXTRA = {"foo: bar": ["B C ; A C ; A\n", "B C ; A\n", "B K ; A C ; A K ; A\n", "D A\n", "D A C ; A\n"],
          "term: (expr": ["1 * 1 + 1\n", "1 + 1 * 1 + 1\n", "1 * 1 * 1\n", "1 + 1 * 1 * 1 + 1\n"],
